@@ -148,7 +148,7 @@ theorem srun_U_shaped (x : Ext) : ∀ (fuel : Nat) (t : STy) (v s : SV),
           simp only [hr, Out.ok.injEq] at h
           subst h
           have := run_U_ne_nil x n [] t v0 r hr
-          cases r <;> simp_all [shaped, SV.isNilPtr, SV.isNilIface, SV.isPtrVal]
+          cases r <;> simp_all [shaped, SV.isNilPtr, SV.isNilIface]
         | err e => simp [hr] at h
         | panic => simp [hr] at h
         | fuel => simp [hr] at h
@@ -159,7 +159,7 @@ theorem srun_U_shaped (x : Ext) : ∀ (fuel : Nat) (t : STy) (v s : SV),
       · obtain ⟨_, _, h⟩ := Out.bind_eq_ok h
         obtain ⟨_, _, h⟩ := Out.bind_eq_ok h
         cases h
-        simp [shaped, SV.isNilPtr, SV.isNilIface, SV.isPtrVal]
+        simp [shaped, SV.isNilPtr, SV.isNilIface]
     | map k vt a b =>
       simp only [srun, runMapS] at h
       split at h
@@ -169,7 +169,7 @@ theorem srun_U_shaped (x : Ext) : ∀ (fuel : Nat) (t : STy) (v s : SV),
         split at h
         · simp [Out.cerr] at h
         · cases h
-          simp [shaped, SV.isNilPtr, SV.isNilIface, SV.isPtrVal]
+          simp [shaped, SV.isNilPtr, SV.isNilIface]
     | scope t =>
       simp only [srun] at h
       exact srun_U_shaped x n t v s h
@@ -179,7 +179,32 @@ theorem srun_U_shaped (x : Ext) : ∀ (fuel : Nat) (t : STy) (v s : SV),
       obtain ⟨_, _, h⟩ := Out.bind_eq_ok h
       obtain ⟨_, _, h⟩ := Out.bind_eq_ok h
       cases h
-      cases ptrT <;> simp [shaped, wrapT, reflTy, SV.isNilPtr, SV.isNilIface, SV.isPtrVal, GoTy.isPtr]
+      cases ptrT <;> simp [shaped, wrapT, SV.isNilPtr, SV.isNilIface]
+    | oneOf ik d inl members =>
+      simp only [srun, runOneOfS, oneOfUnserS] at h
+      split at h
+      · simp [Out.cerr] at h
+      · simp [Out.plain] at h
+      · split at h
+        · simp [Out.cerr] at h
+        · split at h
+          · simp [Out.cerr] at h
+          · split at h
+            · simp [Out.cerr] at h
+            · obtain ⟨key, _, h⟩ := Out.bind_eq_ok h
+              split at h
+              · simp [Out.cerr] at h
+              · split at h
+                · simp [Out.cerr] at h
+                · rename_i mt _
+                  obtain ⟨r, hr, h⟩ := Out.bind_eq_ok h
+                  have hsr := srun_U_shaped x n mt _ r hr
+                  split at h
+                  · split at h
+                    · cases h; simp [shaped, toStrAny, SV.isNilPtr, SV.isNilIface]
+                    · simp [Out.cerr] at h
+                  · cases h
+                    simpa [shaped] using hsr
 
 /-! ### the hypotheses of the end-to-end round trip -/
 
@@ -234,15 +259,6 @@ def rtPropB (st : StructTy) (props : List (String × SProp)) (kp : String × SPr
 def rtObjB (st : StructTy) (props : List (String × SProp)) : Bool :=
   wfObjB st props && exactObjB st props && props.all (rtPropB st props)
 
-/-- nesting depth in units of fuel (a leaf needs 2: one for `srun`, one for `run`) -/
-def sdepth : Nat → STy → Nat
-  | 0, _ => 0
-  | _ + 1, .leaf _ => 2
-  | n + 1, .list item _ _ => sdepth n item + 1
-  | n + 1, .map _ v _ _ => sdepth n v + 1
-  | n + 1, .scope t => sdepth n t + 1
-  | n + 1, .obj _ _ _ props => (props.foldl (fun acc kp => max acc (sdepth n kp.2.ty)) 2) + 1
-
 /-- fuelled executable check of the round-trip hypotheses (`RTOK`): leaves satisfy C01's `WF1`,
     struct-mapped objects are well-formed, exactly typed, round-trip-faithful pairs; the key types of
     maps of struct-mapped objects satisfy `WF1`. -/
@@ -253,6 +269,12 @@ def rtOKB : Nat → STy → Bool
   | n + 1, .map k v _ _ => wf1B (n + 1) [] k && rtOKB n v
   | n + 1, .scope t => rtOKB n t
   | n + 1, .obj _ st _ props => rtObjB st props && props.all (fun kp => rtOKB n kp.2.ty)
+  | n + 1, .oneOf ik d inl members =>
+    -- a one-of over struct-mapped members of pairwise distinct struct types, consistent about the
+    -- discriminator (separate: no member declares it; inlined: every member declares it as a leaf
+    -- of the key kind)
+    members.all (fun m => rtOKB n m.2 && objLikeS n m.2 && discOK n ik d inl m.2) &&
+    decide (members.map (·.1)).Nodup && decide (members.map fun m => reflTy m.2).Nodup
 
 mutual
 /-- the identification the round trip makes, and nothing else: in the field of a
@@ -264,6 +286,7 @@ inductive Eqv : STy → SV → SV → Prop
   | scope {t s s'} : Eqv t s s' → Eqv (.scope t) s s'
   | list {item a b xs xs'} : EqvList item xs xs' → Eqv (.list item a b) (.slice xs) (.slice xs')
   | map {k vt a b sh kvs kvs'} : EqvKVs vt kvs kvs' → Eqv (.map k vt a b) (.map sh kvs) (.map sh kvs')
+  | oneOf {ik d inl members km s s'} : km ∈ members → Eqv km.2 s s' → Eqv (.oneOf ik d inl members) s s'
   | obj {id st ptrT props fs fs'} :
       keysOf fs = st.fields.map (·.name) → keysOf fs = keysOf fs' →
       (∀ n, (∀ kp, kp ∈ props → fieldName? st kp.1 ≠ some n) → lookupS n fs = lookupS n fs') →
@@ -543,6 +566,7 @@ theorem subDefS_some : ∀ (n : Nat) (t : STy) (d : V) (o : Option V), subDefS n
     | list => simp only [subDefS, Out.ok.injEq] at h; subst h; rfl
     | map => simp only [subDefS, Out.ok.injEq] at h; subst h; rfl
     | scope => simp only [subDefS, Out.ok.injEq] at h; subst h; rfl
+    | oneOf => simp only [subDefS, Out.ok.injEq] at h; subst h; rfl
 
 /-- a property with a declared default always has something to add -/
 theorem dflStep_none_default {skip : Bool} {fuel : Nat} {p : SProp} (h : dflStep skip fuel p = .ok none) : p.rules.default = none := by
@@ -586,6 +610,7 @@ theorem dflStep_plainLeaf {skip : Bool} {n : Nat} {p : SProp} (hl : plainLeaf p.
   | map => rw [hp] at hl; simp [plainLeaf] at hl
   | scope => rw [hp] at hl; simp [plainLeaf] at hl
   | obj => rw [hp] at hl; simp [plainLeaf] at hl
+  | oneOf => rw [hp] at hl; simp [plainLeaf] at hl
 
 /-! ### what `sobjRaw` returns -/
 
